@@ -15,6 +15,7 @@ class Adapter:
     has_truth = True   # the module defines the Truth interface (Actions/PrefixOK/Complete/Pointless)
     solo_invariants = ("FamilyOK", "C01", "C02a", "C02c", "C03", "PadStays", "Emit")
     properties = ("C01", "C02", "C03", "C04", "C05", "C06")
+    multistart = False  # env supports select_start_nodes (C12)
     pad_steps = 2      # 0 for fixed-length envs (all rows of a batch finish together)
     exact = True       # exact embedding: rewards are integers in units 1/scale
 
